@@ -29,7 +29,7 @@ def run_one(m):
                 return {"name": m["name"], "pid": m["pid"], "result": "STALE-MUTANT (pattern not found in %s)" % path}
             s = s.replace(old, new, 1 if not m.get("all") else -1)
             open(full, "w").write(s)
-        env = dict(os.environ, VERIF_REPO=tmp, VERIF_SEED=str(m.get("seed", 0)))
+        env = dict(os.environ, VERIF_REPO=tmp, VERIF_SEED=str(m.get("seed", 0)), VERIF_NO_EVIDENCE="1")
         t0 = time.time()
         cmd = [os.path.join(VERIF, "bin", "check"), m["pid"]]
         if m.get("runs"):
